@@ -16,6 +16,20 @@ COMMON_NOTE = (
 
 # id -> (level category, level text, technique, design ref, extra note)
 CLAIMED = {
+    "C14": (
+        "proof",
+        "Invariant-style contracts on every memo table: the cache key built by sf.get_esf (recorded with a probing dict, symbolic kinematics) contains x and Q2 by name at fixed positions whatever the order/extra entries of the kinematics dict, plus the TMC flag, and the object returned is the one a fresh request builds; ESF.get_result computes once and returns a deep copy; ScaleVariations.operators[(label,nf)] and heavy.n3lo.interpolators[file name] are functions of keys that determine all inputs; Runner.get_result places results by original index on every Q2 ordering of 0..3 elements (symbolic Q2, ties included); AST write-set: no other module-level state is written. History independence then follows by induction over the public operations (DESIGN C14).",
+        "contract-based deductive verification: data-structure invariants (key determines value) + symbolic path exploration of the result placement + AST frame scan",
+        "DESIGN 4 C14",
+        "A-det (library determinism) for the bit-for-bit claim; dict lookups hash keys, so key construction is checked symbolically and lookups on concrete histories; end-to-end LO runs as a bounded stand-in (not counted).",
+    ),
+    "C20": (
+        "proof",
+        "Frame and echo contracts: compatibility.update over the full card lattice (5 schemes x NfFF 3..6 x 8 target spellings x optional-key subsets) with write-recording dict/list proxies modifies nothing reachable from its arguments, returns new dictionaries and is idempotent; AST lemmas (the originals occur only as .copy() receivers; no store or mutating call is rooted at the card/kinematics parameters of Runner.__init__, SF/XS.load, get_esf, ESF/EXS/TMC constructors); real Runner construction for every scheme x NfFF x target and five real LO get_result runs (TMC, cross sections, duplicates, empty observables) write nothing into the cards, echo the cards by reference with interpolator description, pids and projectilePID, and return a deep copy equal by value.",
+        "contract-based deductive verification: frame conditions by write-recording proxies over the exhaustive discrete lattice + AST frame lemmas",
+        "DESIGN 4 C20",
+        "card handling does not branch on continuous values; Runner runs at LO (cards are read only in __init__/update/from_dict: AST).",
+    ),
     "C15": (
         "proof",
         "Inverse-pair contracts: from_document(get_raw(r)) == r for ESFResult/EXSResult on symbolic entries; load_tar(dump_tar(o)), load_yaml(dump_yaml(o)) and the mixed sequences tar>yaml, yaml>tar, tar>yaml>tar, each once and twice, return an Output with the identical abstract view (keys, cards, metadata, kinematics, order keys as tuples, result classes, entry-wise identical symbolic values and errors) for ESF / EXS / None / empty observables and their mixes. The I/O libraries (yaml incl. its safe/unsafe asymmetry, npz, tar, tempfile, pathlib) are in-memory inverse-pair contract stubs; the restructuring code runs for real.",
